@@ -42,23 +42,25 @@ Proof.
   eapply Forall_impl; [|exact B6]. cbn. intros t [E _]. assumption.
 Qed.
 Print Assumptions C10_cw_placements_named.
-(* "returns normally": schedule() returns a decision (no exception, no divergence) when every batch size is >= 1, every
-   offered request has a known profile with at least one strategy, and the quantities of the strategies and of the
-   workers' resource vectors are not negative.  No hypothesis on how the requests of a strategy compete for units is
-   needed since /repo 402c33a: what Resources.__gt__ accepts, allocate_multiple serves (play_allocate). *)
-Theorem C10_cw_returns : forall wd ls inv st, world_wf wd -> bs_pos wd -> world_nonneg wd -> pools_nonneg (inv_pools inv) ->
-  Inv_st wd st -> offered_known wd inv -> exists st' d, cw_schedule wd ls inv st = Ok (st', d).
+(* "returns normally": schedule() returns a decision (no exception, no divergence) when every batch size is >= 1 and the
+   environment is in order (inv_ok): every offered request has a known profile with at least one strategy, a request id
+   names one request, the quantities of strategies and workers are not negative, and no pending or offered request is
+   already placed on a worker (Worker.place_task refuses that since /repo 17757a8).  No hypothesis on how the requests of
+   a strategy compete for units is needed since /repo 402c33a: what Resources.__gt__ accepts, allocate_multiple serves. *)
+Theorem C10_cw_returns : forall wd ls inv st, world_wf wd -> bs_pos wd -> world_nonneg wd -> Inv_st wd st -> inv_ok wd inv st ->
+  exists st' d, cw_schedule wd ls inv st = Ok (st', d).
 Proof. exact cw_schedule_returns. Qed.
 Print Assumptions C10_cw_returns.
 Theorem C10_cw_returns_run : forall wd ls started invs, world_wf wd -> bs_pos wd -> world_nonneg wd -> NoDup started ->
-  Forall (fun inv => offered_known wd inv /\ pools_nonneg (inv_pools inv)) invs ->
+  run_ok wd ls invs (cw_start wd started) ->
   Forall (fun r => exists d, r = Ok d) (cw_run wd ls invs (cw_start wd started)) /\
   length (cw_run wd ls invs (cw_start wd started)) = length invs.
 Proof. intros wd ls started invs Hw Hp Hr Hd Ho. apply run_returns; try assumption. apply cw_start_inv; assumption. Qed.
 Print Assumptions C10_cw_returns_run.
-(* the fit test and the allocation agree: a strategy that fits is placed without error *)
-Theorem C10_cw_fit_then_place : forall w s, fits w s = true -> 1 <= s_bs s -> res_nonneg (w_res w) -> res_nonneg (s_res s) ->
-  exists w1, w_place w s = Ok w1 /\ res_nonneg (w_res w1).
+(* the fit test and the allocation agree: a batch whose strategy fits, none of whose members is on the worker, is placed *)
+Theorem C10_cw_fit_then_place : forall w s ts, fits w s = true -> 1 <= s_bs s -> res_nonneg (w_res w) -> res_nonneg (s_res s) ->
+  (forall i, In i ts -> ~ In i (w_placed w)) -> NoDup ts ->
+  exists w1, w_place w s ts = Ok w1 /\ res_nonneg (w_res w1) /\ w_placed w1 = w_placed w ++ ts.
 Proof. exact w_place_ok. Qed.
 Print Assumptions C10_cw_fit_then_place.
 (* termination alone needs no hypothesis on resources *)
@@ -80,6 +82,8 @@ Theorem C10_cw_monitor : forall wd o, mon_invocation wd o = true <->
   (forall b t, In b (oi_batches o) -> In t (ob_tasks b) -> hopeless wd (oi_now o) t = false).
 Proof. exact mon_invocation_iff. Qed.
 Print Assumptions C10_cw_monitor.
-Theorem C10_cw_example : world_wf ex_wd /\ bs_pos ex_wd /\ world_nonneg ex_wd /\ map t_id (run_placed (cw_run ex_wd false ex_invs (cw_start ex_wd [1]))) = [1; 2; 6; 4].
-Proof. exact (conj ex_world_wf (conj ex_bs_pos (conj (proj1 ex_nonneg) ex_placed))). Qed.
+Theorem C10_cw_example : world_wf ex_wd /\ bs_pos ex_wd /\ world_nonneg ex_wd /\
+  Forall (fun r => exists d, r = Ok d) (cw_run ex_wd false ex_invs (cw_start ex_wd [1])) /\
+  map t_id (run_placed (cw_run ex_wd false ex_invs (cw_start ex_wd [1]))) = [1; 2; 6; 4].
+Proof. exact (conj ex_world_wf (conj ex_bs_pos (conj ex_nonneg (conj ex_returns ex_placed)))). Qed.
 Print Assumptions C10_cw_example.
